@@ -127,18 +127,6 @@ Proof.
       cbn [length]. lia.
 Qed.
 
-(* the pump: call next_impl until the stream ends or an error is returned; None = out of fuel *)
-Fixpoint drain (fuel : nat) (s : live) (rest : list raw_item) : option (nat * option err) :=
-  match fuel with
-  | O => None
-  | S f =>
-    match next_impl s rest with
-    | Yield _ s' r' => match drain f s' r' with Some (n, e) => Some (S n, e) | None => None end
-    | Eos _ _ => Some (O, None)
-    | Fail e _ _ => Some (O, Some e)
-    end
-  end.
-
 Theorem drain_stops : forall fuel s rest, (measure s rest < fuel)%nat ->
   exists n e, drain fuel s rest = Some (n, e) /\ (n <= measure s rest)%nat.
 Proof.
